@@ -5,13 +5,19 @@
 #include <stdlib.h>
 #include <string.h>
 #include LK_FILE
+#include "ares_data.h"
 int g_depth;
 void ares_channel_lock(const ares_channel_t *c) { g_depth++; }
 void ares_channel_unlock(const ares_channel_t *c) { __CPROVER_assert(g_depth > 0, "C11: the channel lock is released only while held"); g_depth--; }
 /* shared state readers: must run under the lock */
 size_t ares_llist_len(const ares_llist_t *l) { __CPROVER_assert(g_depth > 0, "C11: the request list is read under the channel lock"); return nondet_size(); }
 size_t ares_slist_len(const ares_slist_t *l) { __CPROVER_assert(g_depth > 0, "C11: the server list is read under the channel lock"); return nondet_size(); }
-ares_slist_node_t *ares_slist_node_first(const ares_slist_t *l) { __CPROVER_assert(g_depth > 0, "C11: the timeout index is read under the channel lock"); return NULL; }
+/* ordered lists (servers, timeouts) hold any number of elements: the walk is cut by the unwinding bound */
+static char sn_tok; static union { ares_server_t s; ares_query_t q; } g_elem;
+ares_slist_node_t *ares_slist_node_first(const ares_slist_t *l) { __CPROVER_assert(g_depth > 0, "C11: the server list / timeout index is read under the channel lock"); return nondet_bool() ? (ares_slist_node_t *)&sn_tok : NULL; }
+ares_slist_node_t *ares_slist_node_next(ares_slist_node_t *n) { __CPROVER_assert(g_depth > 0, "C11: the server list / timeout index is walked under the channel lock"); return nondet_bool() ? (ares_slist_node_t *)&sn_tok : NULL; }
+void *ares_slist_node_val(ares_slist_node_t *n) { return n ? &g_elem : NULL; }
+void *ares_slist_first_val(const ares_slist_t *l) { __CPROVER_assert(g_depth > 0, "C11: the server list / timeout index is read under the channel lock"); return nondet_bool() ? &g_elem : NULL; }
 #ifdef LK_SYSCONFIG
 /* system configuration sources fill the scratch configuration with anything */
 static char t_sc, t_dom, t_look;
@@ -20,7 +26,12 @@ ares_status_t ares_init_sysconfig_files(const ares_channel_t *channel, ares_sysc
 void *ares_malloc(size_t n) { if (nondet_bool()) return NULL; void *p = malloc(n ? n : 1); __CPROVER_assume(p != NULL); return p; }
 void *ares_malloc_zero(size_t n) { if (nondet_bool()) return NULL; void *p = calloc(1, n ? n : 1); __CPROVER_assume(p != NULL); return p; }
 void ares_free(void *p) { /* memory is not the subject of the locking obligations */ }
+void *ares_malloc_data(ares_datatype t) { if (nondet_bool()) return NULL; void *p = calloc(1, 256); __CPROVER_assume(p != NULL); return p; }
+void ares_free_data(void *p) { }
 static void cb_stub(void *arg, ares_status_t status, size_t timeouts, const ares_dns_record_t *dnsrec) { }
+static void host_cb_stub(void *arg, int status, int timeouts, struct hostent *h) { }
+static void ni_cb_stub(void *arg, int status, int timeouts, char *node, char *service) { }
+static void ai_cb_stub(void *arg, int status, int timeouts, struct ares_addrinfo *res) { }
 #ifdef LK_CANCEL
 static ares_query_t g_query; static char node_tok;
 ares_llist_node_t *ares_llist_node_first(ares_llist_t *l) { return nondet_bool() ? (ares_llist_node_t *)&node_tok : NULL; }
